@@ -7,14 +7,16 @@ import struct
 import common
 from common import hx
 
-LEAN_MODULES = ["Pff.Props.C10"]
+LEAN_MODULES = ["Pff.Props.C10", "Pff.Props.Hasher"]
 PROP_MODULE = "Pff.Props.C10"
 THEOREMS = ["Pff.Layout.C10_tiles", "Pff.Layout.C10_agree_whole", "Pff.Layout.C10_track_length",
             "Pff.Layout.C10_header_tiles", "Pff.Layout.C10_agree_header", "Pff.Layout.C10_stage_rule",
             "Pff.Layout.C10_read_rule_agrees",
             "Pff.Layout.C10_layout_congr",
-            "Pff.Layout.C10_track_congr"]
-MODELLED = [("pyFileFixity/structural_adaptive_ecc.py", "stream_compute_ecc_hash"),
+            "Pff.Layout.C10_track_congr",
+            "Pff.Hasher.HASH_length", "Pff.Hasher.HASH_table", "Pff.Hasher.HASH_unknown", "Pff.Hasher.HASH_b64_length",
+            "Pff.Hasher.HASH_short_prefix", "Pff.Hasher.HASH_mini_prefix"]
+MODELLED = [("pyFileFixity/lib/hasher.py", "Hasher.hash"), ("pyFileFixity/lib/hasher.py", "Hasher.__init__"), ("pyFileFixity/structural_adaptive_ecc.py", "stream_compute_ecc_hash"),
             ("pyFileFixity/structural_adaptive_ecc.py", "stream_entry_assemble"),
             ("pyFileFixity/structural_adaptive_ecc.py", "feature_scaling"),
             ("pyFileFixity/header_ecc.py", "compute_ecc_hash"),
@@ -203,6 +205,28 @@ def run(oc, tier, seed, model_available, escalate):
         a, b = rng.choice(RATES), rng.choice(RATES)
         add("fscale %d %d %d %d %d" % (x, xmin, xmax, fbits(a), fbits(b)), str(fbits(saecc().feature_scaling(x, xmin, xmax, a, b))))
     oc.count("feature_scaling samples", nfs)
+
+    # ---- 1b. the hash kinds (lib/hasher.Hasher): value and declared length vs the model (Pff.Hasher), and the length clause on the real class
+    import hashlib
+    from pyFileFixity.lib.hasher import Hasher
+    for it_ in range(120 if tier == "quick" else 2000):
+        algo = rng.choice(["md5", "shortmd5", "shortsha256", "minimd5", "minisha256", "none", "MD5", "ShortMD5", "sha1", "", "md5 "])
+        msg = bytes(rng.randrange(256) for _ in range(rng.choice([0, 1, 5, 64, 300])))
+        m5, s2 = hashlib.md5(msg).hexdigest().encode(), hashlib.sha256(msg).hexdigest().encode()
+        try:
+            hs_ = Hasher(algo)
+            val, ln = hs_.hash(msg), len(hs_)
+            val = val.encode("latin-1") if isinstance(val, str) else bytes(val)
+            oc.oracle_cases += 1
+            if len(val) != ln:
+                oc.violations.append({"input": {"hash_kind": algo, "message": msg.hex()}, "impl": {"hash": val.hex(), "len(hasher)": ln},
+                                      "what": "Hasher.hash returns %d bytes but len(hasher) = %d: the stored track is not hash+parity of the declared sizes" % (len(val), ln)})
+            rep_ = "%s %d" % (hx(val), ln)
+        except NameError:
+            rep_ = "NameError NameError"
+        # (the class lower-cases the kind it is given)
+        add("hasher %s %s %s" % (hx(algo.lower().encode()), hx(m5), hx(s2)), rep_)
+    oc.count("hash kinds: Hasher.hash / len(hasher) cases", 120 if tier == "quick" else 2000)
 
     # ---- 2. whole-file tool: partition sweep over sizes (content irrelevant: zeros)
     N = 1500 if tier == "quick" else 20000
